@@ -1458,7 +1458,10 @@ func (e *Exec) evalInvariant(f *frame, c *Clause, li *loopInfo, h *Heap, over ma
 			}
 		}
 		if !ok {
-			panic(fmt.Sprintf("%s:%d: loop local %q not found at loop %d of %s", c.File, c.Line, name, li.ord, f.fn))
+			// the code no longer has the variable the invariant talks about: the clause is out of date; it is left
+			// out (nothing asserted, nothing assumed) and the function is reported like one with a stale field clause
+			noteStaleClause(fmt.Sprintf("%s:%d %s#%s names loop local %q, but loop %d of %s has no such variable", c.File, c.Line, f.spec.Key, labelOr(c, "inv"), name, li.ord, f.fn.Name()))
+			return "true"
 		}
 		args = append(args, v)
 	}
